@@ -603,6 +603,9 @@ structure SelObs where
   items : List ((Bool × Str) × Str)
   query : Option Str
   other : Option (Str × Str × Str)
+  /-- what `build_xml` read (for the spec / oracle) and whether the *list* requires itext -/
+  qin : Option SelIn := none
+  listItext : Bool := false
 deriving Repr, Inhabited
 
 structure Input where
@@ -705,7 +708,8 @@ def selObs (inp : Input) (tbl : List NameInfo) (lists : List (Str × List Choice
   let prevSub ← if isPrev then (do let x ← sub ln; pure (strip x)) else pure []
   let q : SelIn := { itemset := ln, filter, params, seedSub, prevSub,
                      choicesItext := gets && known && requiresItext cs }
-  return { ref, tag := tagOf sel, itemset := some (itemsetOf q), items := [], query := none, other := otherObs }
+  return { ref, tag := tagOf sel, itemset := some (itemsetOf q), items := [], query := none, other := otherObs,
+           qin := some q, listItext := known && requiresItext cs }
 
 def selsObs (inp : Input) (tbl : List NameInfo) (lists : List (Str × List Choice)) (extLists : List Str) :
     List Elem → Except String (List SelObs)
